@@ -1936,9 +1936,9 @@ package engine
 //@   at-call Unify requires[each-alternative-offers-its-own-split-to-the-caller-s-pattern] a0 == vm && a1 == pattern && a3 == k && a4 == env
 
 //@ func Bool
-//@   trusted
+//@   property C12
 //@   modifies nothing
-//@   ensures result != nil
+//@   ensures[one-of-the-two-shared-promises] result == ite(ok, truePromise, falsePromise)
 
 //@ ---------------------------------------------------------------- bagof/setof: every witness group becomes an alternative (C11)
 
